@@ -344,8 +344,13 @@ def block_matvec(ctx):
                                 except AnalysisError:
                                     good = False
                             order = bool(sums) and all(s_.node.lineno < cd[0].node.lineno for s_ in sums) and xs[0].node.lineno < min(s_.node.lineno for s_ in sums) and rd[0].node.lineno > lJ.lineno
-                            ok = good and order
-                            why = "every accumulation is op[i,j] applied to the column slice (complex split included): %s; offsets advance after use: %s" % (good, order)
+                            # every write to the row view inside the block loop accumulates, and some accumulation happens on every path
+                            writes = [s for s in S if s.loops == (lI, lJ) and (unparse(s.tnode) == LV or unparse(s.tnode) == LV + "[:]")]
+                            only_acc = all(s.op == "Add=" for s in writes)
+                            gset = {s.guards for s in sums}
+                            covered = () in gset or any(((t, True),) in gset and ((t, False),) in gset for g in gset for (t, _) in g[:1])
+                            ok = good and order and only_acc and covered
+                            why = "every accumulation is op[i,j] applied to the column slice (complex split included): %s; offsets advance after use: %s; the row slice is only ever accumulated into: %s; a contribution is added on every path: %s" % (good, order, only_acc, covered)
         r.check(ok, "BlockedDiscreteOperator." + meth, BL, "BlockedDiscreteOperator." + meth, fn.lineno, "blocked %s" % meth, why)
 
 
@@ -445,6 +450,7 @@ def run(ctx):
     combinator_shapes(ctx)
     dunder_algebra(ctx)
     dunder_sub.subclass_dunders(ctx)
+    dunder_sub.blocked_to_dense(ctx)
 
 
 def combinator_shapes(ctx):
